@@ -435,12 +435,18 @@ def rule_table(ctx):
     ctx.rule("C03.TABLE", "dispatch only through <table>.get(cmd); no getattr on wire-derived names")
     disp = p.dispatcher()
     attr = p.command_table_attr()
-    gets = [c for c in walk_no_nested(disp) if isinstance(c, ast.Call) and is_method_call(c, "get", attr)]
-    subs = [c for c in walk_no_nested(disp) if isinstance(c, ast.Subscript) and last_attr(c.value) == attr]
-    ctx.ob("C03.TABLE", disp, "dispatcher looks the verb up with <table>.get(cmd) / <table>[cmd]", bool(gets or subs),
-           "dispatch through the command table not found", construct="dispatcher:no table lookup")
-    for c in calls_in(disp, lambda c: isinstance(c.func, ast.Name) and c.func.id in ("getattr", "eval", "exec", "globals", "locals", "vars")):
-        ctx.fail("C03.TABLE", c, f"dynamic lookup `{src(c)[:50]}` in the dispatcher: handlers outside the table become reachable", construct=f"dispatcher:{src(c)[:50]}")
+    scope = [disp] + [m for m in p.methods("Server").values() if m is not disp and any(is_self_call(c, {m.name}) for c in ast.walk(disp))]   # helpers of the dispatcher
+    gets = [c for f_ in scope for c in ast.walk(f_) if isinstance(c, ast.Call) and is_method_call(c, "get", attr)]
+    subs = [c for f_ in scope for c in ast.walk(f_) if isinstance(c, ast.Subscript) and last_attr(c.value) == attr]
+    if not (gets or subs):
+        raise AnalysisError("anchor=dispatch lookup (<table>.get(cmd) / <table>[cmd]) not found in the dispatcher or the methods it calls")
+    ctx.ob("C03.TABLE", disp, "dispatcher looks the verb up with <table>.get(cmd) / <table>[cmd]", True)
+    for f_ in scope:
+        for c in calls_in(f_, lambda c: isinstance(c.func, ast.Name) and c.func.id in ("getattr", "eval", "exec", "globals", "locals", "vars")):
+            # a getattr whose name is a literal reads one fixed attribute: not a dispatch on wire data
+            if c.func.id == "getattr" and len(c.args) >= 2 and isinstance(c.args[1], ast.Constant) and isinstance(c.args[1].value, str):
+                continue
+            ctx.fail("C03.TABLE", c, f"dynamic lookup `{src(c)[:50]}` in the dispatcher: handlers outside the table become reachable", construct=f"dispatcher:{src(c)[:50]}")
     # the table is only assigned in __init__
     for fn in p.methods("Server").values():
         if fn.name == "__init__":
